@@ -10,6 +10,7 @@ from vlib.harness import V, derive_seed, run_shards, REPO
 from vlib.lib import call
 
 PROPERTY = 'C14'
+AMBIENT_PASS = True        # the same search once more under unusual ambient settings (vlib.run.AMBIENT_SETTINGS)
 RULE = ('tables 2015 and 2023 (year= as int) and the combined-events table x every tabulated event as written and in lower, Title, '
         'swapped and alternating letter case (when that spelling is itself an accepted code) x gender spellings {m f M F male Male men female FEMALE Female} x '
         'every integer and half-integer age from the first non-null column of the row to 20 years past the last column (an '
@@ -19,6 +20,7 @@ RULE = ('tables 2015 and 2023 (year= as int) and the combined-events table x eve
         'grade for all spellings, grade == standard / time or mark / standard to 1e-12, grade(best) == 1.0 exactly where the '
         'factor is 1, strictly better performance => strictly higher grade; non-trivial = a non-canonical spelling, an age at a '
         'table end / first non-null column / beyond the last column, or a half-integer age; distinct (table, gender, event, age)')
+RULE = RULE + '; every grade also with verbose=True (keyword / positional) and with the performance as text'
 ASSUMPTIONS = ['the combined-events table carries no open bests: the factor and spelling clauses and the DIRECTION of the grade (a better mark grades higher) apply to wma_athlon_*, not the grade value',
                'rows with null cells in the middle (2015 women\'s pole vault above 90) are covered up to the last non-null cell']
 RULE = RULE + '; table year also as text and left out (the three entry points must select the same table); interleaved histories include calls that raise'
